@@ -148,7 +148,7 @@ impl C14 {
 fn seeds(seed: u64, thorough: bool) -> Vec<Vec<u8>> {
     let mut v: Vec<Vec<u8>> = vec![b"A seed phrase example".to_vec(), (0u8..10).collect()];
     let mut rng = SplitMix(seed ^ 0xC14);
-    let lens: Vec<usize> = if thorough { (0..=300).chain([1000, 4096, 65536]).collect() } else { vec![0, 1, 2, 10, 31, 32, 33, 135, 136, 137, 271, 272, 273, 1000] };
+    let lens: Vec<usize> = if thorough { (0..=300).chain([1000, 4096, 65536]).collect() } else { (0..=140).chain(264..=280).chain([1000]).collect() };
     for l in lens {
         v.push(vec![0u8; l]);
         v.push(vec![0xffu8; l]);
